@@ -394,6 +394,11 @@ pub struct AcceptCase {
     /// to the caller of connect()
     #[serde(default)]
     pub connect_side: bool,
+    /// accept path only: before the tested connection another raw client has connected to the
+    /// same endpoint and is still in the middle of ITS handshake (1 = has sent nothing, 2 = has
+    /// sent the first 11 bytes of a greeting). The verdict on the tested connection is the same.
+    #[serde(default)]
+    pub bystander: u8,
 }
 
 pub fn accept_outcome(c: &AcceptCase) -> Outcome {
@@ -402,6 +407,9 @@ pub fn accept_outcome(c: &AcceptCase) -> Outcome {
     let mut o = Outcome::new(hash_of(c));
     let (admit, why) = c.cell.should_admit();
     o.nontrivial = !admit;
+    if c.bystander > 0 {
+        o.class("another-connection-mid-handshake");
+    }
     o.class(match (c.connect_side, admit) {
         (false, true) => "accept-path-admitted",
         (false, false) => "accept-path-rejected",
@@ -460,6 +468,17 @@ pub fn accept_outcome(c: &AcceptCase) -> Outcome {
                     return f;
                 }
             };
+            let mut _bystander = None;
+            if c.bystander > 0 {
+                if let Ok(mut b) = realnet::raw_connect(&ep).await {
+                    if c.bystander == 2 {
+                        let g = crate::refcodec::RefGreeting::valid_null().encode();
+                        let _ = b.write(&g[..11]).await;
+                    }
+                    tokio::time::sleep(std::time::Duration::from_millis(2)).await;
+                    _bystander = Some(b);
+                }
+            }
             let mut rc = match realnet::raw_connect(&ep).await {
                 Ok(rc) => rc,
                 Err(e) => {
@@ -543,8 +562,12 @@ pub fn accept_grid() -> Vec<AcceptCase> {
             cells.push(Cell { first, ..base.clone() });
         }
         for (i, cell) in cells.into_iter().enumerate() {
-            v.push(AcceptCase { cell: cell.clone(), ipc: i % 3 == 2, connect_side: false });
-            v.push(AcceptCase { cell, ipc: false, connect_side: true });
+            v.push(AcceptCase { cell: cell.clone(), ipc: i % 3 == 2, connect_side: false, bystander: 0 });
+            // the same verdict while another connection to the endpoint is mid-handshake
+            if i % 4 == 0 {
+                v.push(AcceptCase { cell: cell.clone(), ipc: i % 8 == 0, connect_side: false, bystander: 1 + (i as u8 / 4) % 2 });
+            }
+            v.push(AcceptCase { cell, ipc: false, connect_side: true, bystander: 0 });
         }
     }
     v
